@@ -68,14 +68,25 @@ fn oracle_links(case: &[u8], obs: &mut Obs) -> Result<(), String> {
             }
             let mut w = m::W::new(enc);
             w.u32(nbucket);
-            w.u32(chains.len() as u32);
+            // a quarter of the tables declare a chain count that is not the one the section holds (a constructor that
+            // refuses them is fine; one that accepts them must still end its walks)
+            let lie = c.u8();
+            let declared = if lie >= 192 { *c.pick(&[u32::MAX, 0x7fff_ffff, 0x1_0000, chains.len() as u32 + 1, 0x00ff_ffff]) } else { chains.len() as u32 };
+            w.u32(declared);
             for b in &buckets {
                 w.u32(*b)
             }
             for x in &chains {
                 w.u32(*x)
             }
-            let h = SysVHashTable::new(e, class, &w.buf).map_err(|er| format!("harness: sysv table: {}", err_name(&er)))?;
+            let h = match SysVHashTable::new(e, class, &w.buf) {
+                Ok(h) => h,
+                Err(_) if declared != chains.len() as u32 => {
+                    obs.label("sysv_declared_count_refused");
+                    return Ok(());
+                }
+                Err(er) => return Err(format!("harness: sysv table: {}", err_name(&er))),
+            };
             let st = SymbolTable::new(e, class, &tab.symtab);
             let strs = StringTable::new(&tab.strtab);
             let r = h.find(&query, &st, &strs);
@@ -88,6 +99,10 @@ fn oracle_links(case: &[u8], obs: &mut Obs) -> Result<(), String> {
             }
             // a present name must still be found or the walk must end (either is fine for C16)
             let _ = h.find(&names[path[c.idx(plen)] as usize], &st, &strs);
+            // more absent names (every bucket is hit): a walk bounded by anything but the table's size adds up
+            for k in 0..6u8 {
+                let _ = h.find(&[b'z', b'a' + k, b'q'], &st, &strs);
+            }
             desc = json!({"family": "sysv_cycle", "nsyms": nsyms, "nbucket": nbucket, "path_len": plen, "cycle_len": if closes { cyc } else { 0 }});
         }
         1 => {
